@@ -123,6 +123,8 @@ struct Run {
 static Run *R;
 static sigjmp_buf crash_jb;
 static bool crash_jb_armed = false;
+static sigjmp_buf prep_jb;
+static bool prep_armed = false;
 
 struct ViolationEx {};
 struct StopEx {};
@@ -300,12 +302,12 @@ static void all_blocked() {
 	}
 	// A task parked by the spin heuristic may merely be in a long bounded loop of identical loads
 	// (e.g. scanning a bitmask): before declaring a deadlock, let such tasks continue with a 16x
-	// larger threshold. A real spin escalates to 2^20 unchanged loads and is then reported.
+	// larger threshold. A real spin escalates to 2^16 unchanged loads and is then reported.
 	{
 		bool woke = false;
 		for (int t = 1; t <= r.ntasks; t++) {
 			Task &x = r.tasks[t];
-			if (x.st == T_PARKED && x.spin_limit < (1 << 20)) { x.spin_limit *= 16; x.st = T_RUN; spin_reset(x); woke = true; }
+			if (x.st == T_PARKED && x.spin_limit < (1 << 16)) { x.spin_limit *= 16; x.st = T_RUN; spin_reset(x); woke = true; }
 		}
 		if (woke) { int n = lowest_enabled(); switch_to(n); return; }
 	}
@@ -719,7 +721,7 @@ uint64_t user_atomic_exchange(void *p, int size, uint64_t v) {
 }
 
 // ------------------------------------------------------------------ SimMutex
-SimMutex::SimMutex() : owner(0), shared(0), n_lock(0), n_unlock(0), n_lock_shared(0), n_unlock_shared(0), reg(0) {
+SimMutex::SimMutex() : owner(-1), shared(0), n_lock(0), n_unlock(0), n_lock_shared(0), n_unlock_shared(0), reg(0) {
 	clk.clear(); memset(shared_by, 0, sizeof shared_by);
 	if (R && R->active) { reg = (uint32_t)R->mutexes.size(); R->mutexes.push_back(this); }
 }
@@ -731,7 +733,7 @@ void SimMutex::lock() {
 	int me = r.cur; Task &t = r.tasks[me];
 	n_lock++;
 	if (owner == me || shared_by[me]) violation("self_deadlock", "task %d locks mutex #%u which it already holds (lock() #%u on this mutex)", me, reg, n_lock);
-	while (owner != 0 || shared != 0) {
+	while (owner != -1 || shared != 0) {
 		if (me == 0) violation("deadlock", "setup/teardown context blocks on mutex #%u held by task %d", reg, owner);
 		t.st = T_BLOCKED; t.blocked_on = this;
 		forced_switch();
@@ -753,7 +755,7 @@ void SimMutex::unlock() {
 	n_unlock++;
 	if (owner != me) violation("unlock_by_non_owner", "task %d unlocks mutex #%u owned by %d (unlock() #%u, lock() calls so far %u)", me, reg, owner, n_unlock, n_lock);
 	clk = t.clk; t.clk.c[me]++;
-	owner = 0; t.held--;
+	owner = -1; t.held--;
 	wake_blocked(this);
 	spin_reset(t);
 	r.hash = mix(r.hash, 0xD200 ^ ((uint64_t)me << 56) ^ ((uint64_t)reg << 16));
@@ -765,7 +767,7 @@ void SimMutex::lock_shared() {
 	int me = r.cur; Task &t = r.tasks[me];
 	n_lock_shared++;
 	if (owner == me) violation("self_deadlock", "task %d lock_shared()s mutex #%u which it holds exclusively", me, reg);
-	while (owner != 0) {
+	while (owner != -1) {
 		if (me == 0) violation("deadlock", "setup/teardown context blocks on mutex #%u", reg);
 		t.st = T_BLOCKED; t.blocked_on = this;
 		forced_switch();
@@ -825,6 +827,7 @@ static void task_entry() {
 static void crash_handler(int sig, siginfo_t *si, void *) {
 	Run *r = R;
 	const char *name = sig == SIGSEGV ? "SIGSEGV" : sig == SIGBUS ? "SIGBUS" : sig == SIGILL ? "SIGILL" : sig == SIGFPE ? "SIGFPE" : "SIG?";
+	if (prep_armed) siglongjmp(prep_jb, 1);
 	if (!r || !r->active) { signal(sig, SIG_DFL); raise(sig); return; }
 	if (!r->res.v.set) {
 		r->res.v.set = true; r->res.v.cls = std::string("crash:") + name;
@@ -905,6 +908,10 @@ RunResult execute(Engine *e, const Plan &p) {
 			r.stall_from = r.rng.below(K); r.stall_to = r.stall_from + 50 + r.rng.below(K);
 		}
 	}
+	// prepare() runs code under test outside a run (calibration): a panic or crash there must not kill the worker
+	prep_armed = true;
+	if (sigsetjmp(prep_jb, 1) == 0) e->prepare(p);
+	prep_armed = false;
 	r.active = true;
 	r.cur = 0;
 	crash_jb_armed = true;
@@ -970,6 +977,7 @@ void frg_panic(const char *msg) {
 		if (R->eng->panic_is_stop(msg)) stop_run(msg);
 		violation("panic", "%s", msg);
 	}
+	if (prep_armed) siglongjmp(prep_jb, 1);
 	fprintf(stderr, "frg_panic outside run: %s\n", msg);
 	abort();
 }
